@@ -1,7 +1,7 @@
 (* C07 — inclusion on BDD-encoded tree automata is exact; unimplemented selections throw. Statements only. *)
 From Coq Require Import List NArith Bool.
 Import ListNotations.
-From V Require Import Sem Prod Incl TrimDefs TrimProofs Lang InclDefs InclProofs DispatchTable AntichainUp BuUpUnion DownIncl DownInclCacheDefs DownInclCacheProofs DownInclOptDefs DownInclOptProofs.
+From V Require Import Sem Prod Incl TrimDefs TrimProofs Lang InclDefs InclProofs DispatchTable AntichainUp BuUpUnion DownIncl DownInclCacheDefs DownInclCacheProofs DownInclOptDefs DownInclOptProofs NegCache.
 
 (* the verdict every implemented selection must report is exact, and equals the explicit encoding's (same function) *)
 Theorem C07_exact : forall v A B, incl_model v A B = true <-> (forall t, accepts A t -> accepts B t).
@@ -45,6 +45,13 @@ Proof. exact downo_partial_correct. Qed.
 Theorem C07_down_opt_careless_refuted : downo_incl true trapA trapB 30 = Some true /\ ~ lincl trapA trapB /\ downo_incl false trapA trapB 30 = Some false.
 Proof. exact downo_careless_refuted. Qed.
 
+(* the cache of refuted goals: a refutation of (p, P) refutes (q, S) when p lies below q and S inside P; with the preorder the other way
+   round it does not *)
+Theorem C07_neg_cache_sound : forall A B p q P S, ~ Incl A B p P -> below A p q -> incl S P -> ~ Incl A B q S.
+Proof. exact neg_cache_sound. Qed.
+Theorem C07_neg_cache_wrong_side_refuted : below ncA 2%N 1%N /\ ~ Incl ncA ncB 1%N (5%N :: nil) /\ Incl ncA ncB 2%N (5%N :: nil).
+Proof. exact neg_cache_wrong_side_refuted. Qed.
+
 Print Assumptions C07_exact.
 Print Assumptions C07_up_antichain_exact.
 Print Assumptions C07_bu_up_union_refuted.
@@ -59,3 +66,5 @@ Print Assumptions C07_down_cache_scoped_partial_correct.
 Print Assumptions C07_down_cache_shared_refuted.
 Print Assumptions C07_down_opt_partial_correct.
 Print Assumptions C07_down_opt_careless_refuted.
+Print Assumptions C07_neg_cache_sound.
+Print Assumptions C07_neg_cache_wrong_side_refuted.
